@@ -332,6 +332,9 @@ func peerRun() (res peerResult) {
 					}
 					if le, ok := p.lastError(id); !ok || le != "" {
 						fail("C10:http-second-run-fails|"+cfg, fmt.Sprintf("%s: the second run, after the source received an entity in a namespace that is new to the hub, did not succeed: %q", cfg, le))
+						if strings.Contains(le, "expansion") || strings.Contains(le, "pars") || strings.Contains(le, "400") {
+							fail("C15:http-sink-batch-not-parsed-by-receiver|"+cfg, fmt.Sprintf("%s: a batch the HTTP sink serialised in its second run (an entity in a namespace the hub learned after the first run) was refused by the receiving hub: %q", cfg, le))
+						}
 						continue
 					}
 					want := fmt.Sprintf("http://peer/later-%d/y1", n)
